@@ -268,7 +268,7 @@ func (p *Program) GlobalName(g *ssa.Global, pk *types.Package) string {
 func (p *Program) FunctionsUnderContract() []string {
 	var out []string
 	for name, fs := range p.Contract {
-		if fs.Trusted {
+		if fs.Trusted && !fs.CheckSafety {
 			continue
 		}
 		out = append(out, name)
